@@ -334,6 +334,13 @@ def _ast_chain(prog, b, op):
                     todo.append((t["args"][0], "behind"))
             elif c.startswith("ide::") or c.startswith("syntax::"):
                 continue            # a repository function that is not an accessor: not followed
+            elif re.search(r"(slice::<impl \[T\]>|Vec::<T(, A)?>|VecDeque::<T(, A)?>)::(get|first|last)$", c):
+                # one element picked out of a list of nodes (`values.first()?` in the bang operators): a node of its own, so
+                # that `let var = values.first()?` used both as the declaring identifier and as an indexed value is seen
+                if out.get(x[2]) != "direct":
+                    out[x[2]] = lvl
+                if t["args"]:
+                    todo.append((t["args"][0], "behind"))
             else:
                 for a in t["args"]:
                     todo.append((a, lvl))
